@@ -1,12 +1,17 @@
 package main
 
 import (
+	"context"
+	"errors"
 	"fmt"
+	"io"
 	"sort"
 	"strconv"
 	"strings"
 
+	"google.golang.org/grpc/codes"
 	"google.golang.org/grpc/metadata"
+	"google.golang.org/grpc/status"
 )
 
 // A case is one pair of rendezvous scripts for one call shape. The textual form is shared with the
@@ -26,6 +31,10 @@ import (
 //	          s<n> send message n   c CloseSend   r RecvMsg   h Header()   t Trailer()   x cancel ctx   d wait for deadline
 //	          w (after x, real runs only; not sent to the model) wait until the handler has returned: the client's
 //	            next read happens after the handler has unwound from the abort instead of racing with it
+//	          y the caller's context is cancelled FROM THE SIDE while the client is inside its next op (fired once the
+//	            handler is parked: W or G)   z the same for the deadline: it passes while the client is inside its next op
+//	srv op G (real runs only): the handler does work of its own that does NOT watch the call's context — parked until
+//	            the client script is over, then it goes on with its script and returns what `fin` says
 type scase struct {
 	Shape string `json:"shape"`
 	Out   string `json:"out"`
@@ -48,12 +57,18 @@ type scase struct {
 	Amp   int    `json:"amp,omitempty"`
 	Reuse bool   `json:"reuse,omitempty"`
 	Pass  string `json:"pass,omitempty"`
+	// Via: the call is made with the typed client of a GENERATED trait wrapper (via.go: onoff | info | metadata) instead
+	// of a bare wrap.ServerToClient connection to TestApi — unary and server-streaming scripts only.
+	Via string `json:"via,omitempty"`
 }
 
 func (c scase) key() string {
 	k := fmt.Sprintf("%s amp=%d async=%v", c.args(), c.Amp, c.Async)
-	if strings.Contains(c.Cli, "w") {
+	if strings.ContainsAny(c.Cli, "wyz") {
 		k += " cli=" + c.Cli
+	}
+	if c.Via != "" {
+		k += " via=" + c.Via
 	}
 	if c.Pass != "" {
 		k += " pass=" + c.Pass
@@ -213,7 +228,7 @@ func parseSrv(s string) []sop {
 				panic("bad srv op " + t)
 			}
 			out = append(out, sop{K: 'M', N: n})
-		case 'R', 'W', 'E':
+		case 'R', 'W', 'E', 'G':
 			out = append(out, sop{K: t[0]})
 		default:
 			panic("bad srv op " + t)
@@ -232,7 +247,7 @@ func parseCli(s string) []cop {
 				panic("bad cli op " + t)
 			}
 			out = append(out, cop{K: 's', N: n})
-		case 'c', 'r', 'h', 't', 'x', 'd', 'w':
+		case 'c', 'r', 'h', 't', 'x', 'd', 'w', 'y', 'z':
 			out = append(out, cop{K: t[0]})
 		default:
 			panic("bad cli op " + t)
@@ -242,26 +257,109 @@ func parseCli(s string) []cop {
 }
 
 type fin struct {
-	Kind byte // 'O' ok, 'E' status, 'P' plain
+	Kind byte // what the handler returns: see parseFin
 	Code int
 	Msg  string
 }
 
+// parseFin: the error VALUE the handler returns, by class (how a gRPC server turns each into the call's status is
+// the oracle finEvent; the wrapper has to end the call the same way):
+//
+//	OK            nil
+//	E<code>:<w>   status.Error(code, w)
+//	P<w>          errors.New(w)                                   a plain error
+//	V<code>:<w>   fmt.Errorf("w: %w", status.Error(code, w))       a status error WRAPPED by an annotating caller
+//	U<code>:<w>   a custom error type (Error() = w, Unwrap()) around a %w-wrapped status error: two levels
+//	CX | CD       context.Canceled | context.DeadlineExceeded      returned by the handler on its own
+//	KX | KD       fmt.Errorf("w: %w", <context error>)
+//	Z             io.EOF (typically the EOF of the handler's own Recv handed on)
+//	Y             fmt.Errorf("w: %w", io.EOF)
 func parseFin(s string) fin {
-	switch {
-	case s == "OK":
-		return fin{Kind: 'O'}
-	case strings.HasPrefix(s, "E"):
+	codeMsg := func(k byte) fin {
 		i := strings.IndexByte(s, ':')
+		if i < 0 {
+			panic("bad fin " + s)
+		}
 		c, err := strconv.Atoi(s[1:i])
 		if err != nil {
 			panic("bad fin " + s)
 		}
-		return fin{Kind: 'E', Code: c, Msg: s[i+1:]}
+		return fin{Kind: k, Code: c, Msg: s[i+1:]}
+	}
+	switch {
+	case s == "OK":
+		return fin{Kind: 'O'}
+	case s == "CX", s == "CD", s == "KX", s == "KD":
+		return fin{Kind: s[0], Msg: s[1:]}
+	case s == "Z", s == "Y":
+		return fin{Kind: s[0]}
+	case strings.HasPrefix(s, "E"), strings.HasPrefix(s, "V"), strings.HasPrefix(s, "U"):
+		return codeMsg(s[0])
 	case strings.HasPrefix(s, "P"):
 		return fin{Kind: 'P', Msg: s[1:]}
 	}
 	panic("bad fin " + s)
+}
+
+// annotated: an error type of the handler's own that carries a cause.
+type annotated struct {
+	msg   string
+	cause error
+}
+
+func (a *annotated) Error() string { return a.msg }
+func (a *annotated) Unwrap() error { return a.cause }
+
+func (f fin) err() error {
+	ctxErr := func() error {
+		if f.Msg == "D" {
+			return context.DeadlineExceeded
+		}
+		return context.Canceled
+	}
+	switch f.Kind {
+	case 'E':
+		return status.Error(codes.Code(f.Code), f.Msg)
+	case 'P':
+		return errors.New(f.Msg)
+	case 'V':
+		return fmt.Errorf("w: %w", status.Error(codes.Code(f.Code), f.Msg))
+	case 'U':
+		return &annotated{msg: f.Msg, cause: fmt.Errorf("w: %w", status.Error(codes.Code(f.Code), "inner"))}
+	case 'C':
+		return ctxErr()
+	case 'K':
+		return fmt.Errorf("w: %w", ctxErr())
+	case 'Z':
+		return io.EOF
+	case 'Y':
+		return fmt.Errorf("w: %w", io.EOF)
+	}
+	return nil
+}
+
+// finEvent: the terminal event a client must see for what the handler returned — the rule of a gRPC server written
+// out by hand (independent of grpc's status package and of the model): a status error, also one reachable through
+// Unwrap, keeps its code (the text is that of the outermost error); a context error is Canceled / DeadlineExceeded
+// (compared by class); anything else, io.EOF included, is Unknown with the error's text.
+func (f fin) finEvent() string {
+	switch f.Kind {
+	case 'O':
+		return "F0:"
+	case 'E', 'U':
+		return "F" + strconv.Itoa(f.Code) + ":" + f.Msg
+	case 'V':
+		return "F" + strconv.Itoa(f.Code) + ":w: rpc error: code = " + codes.Code(f.Code).String() + " desc = " + f.Msg
+	case 'P':
+		return "F2:" + f.Msg
+	case 'C', 'K':
+		return f.Msg // "X" | "D"
+	case 'Z':
+		return "F2:EOF"
+	case 'Y':
+		return "F2:w: EOF"
+	}
+	return "?"
 }
 
 func joinOps(xs []string) string {
@@ -283,6 +381,9 @@ func (c scase) String() string {
 	s := fmt.Sprintf("%s out=%s ctx=%s srv=%s fin=%s cli=%s", c.Shape, c.Out, c.ctx(), c.Srv, c.Fin, c.Cli)
 	if c.Pass != "" {
 		s += " pass=" + c.Pass
+	}
+	if c.Via != "" {
+		s += " via=" + c.Via
 	}
 	return s
 }
